@@ -3,4 +3,4 @@ From FluteV Require Import Model.Expiry Spec.C19Spec.
 Extraction Language OCaml.
 Extraction "../ocaml/gen/c19_model.ml" system_time_to_ntp ntp_to_system_time parse_u32 expires_of
   run outputs r_init
-  P_C19_sound P_C19_silent P_C19_same P_C19_session all_sct uniform_sct session_events se_expires_ntp session_ok in_range.
+  P_C19_sound P_C19_silent P_C19_same P_C19_session all_sct uniform_sct session_events se_expires_ntp session_ok session_ok_unchecked in_range.
